@@ -55,6 +55,13 @@ func (k *StoreKind) Build(f *Fixture, t *abs.Tree) any {
 	return root
 }
 
+// BuildMapAt builds the content below `at` as a map (event payloads).
+func (k *StoreKind) BuildMapAt(f *Fixture, t *abs.Tree, at abs.Path) map[string]any {
+	m := map[string]any{}
+	k.buildInto(f, t, at, m)
+	return m
+}
+
 // buildStruct fills a struct value from the tree (struct-backed stores).
 func buildStruct(f *Fixture, t *abs.Tree, at abs.Path, sv reflect.Value) {
 	for _, n := range f.DS.Children(at.SPath()) {
